@@ -69,6 +69,11 @@ def gen_history(rng):
                     a = rng.choice(addrs[pid])
                     start = (a & ~0xFFF) - 0x1000 * rng.below(2)        # overlap / replace an earlier mapping
                 length = 0x1000 * rng.range(1, 4)
+                if rng.chance(1, 4):
+                    # byte-exact ranges as `perf inject --jit` writes them: unaligned start and length, often packed back to back in a page
+                    prev = [x for x in addrs[pid] if x > base_abs]
+                    start = (rng.choice(prev) if prev and rng.chance(1, 2) else start + 0x10 * rng.below(256))
+                    length = rng.choice([0x10, 0x38, 0x7F0, 0x1008, 0x10 * rng.range(1, 0x300)])
                 pgoff = 0x1000 * rng.below(16)
                 recs.append(["mmap", pid, tick(True), start, length, pgoff, "absent:%d" % lib])
             else:
